@@ -210,7 +210,12 @@ PROPS = {
         namespaces=['OLP.Props.C09'],
         required_theorems=['get_returns_view', 'deleted_reads_absent', 'discard_invisible', 'commit_persists_block',
                            'old_versions_immutable', 'reopen_returns_last_commit', 'erase_reads_same_state',
-                           'commit_log_first_write_order', 'gas_refusal'],
+                           'commit_log_first_write_order', 'gas_refusal', 'gas_refusal_in_session',
+                           'get_exactly', 'get_returns_view_or_gas_error', 'get_gas_error_iff', 'no_stale_read',
+                           'no_stale_read_reachable', 'has_returns_view_always', 'iter_returns_view_metered',
+                           'iter_lists_only_views', 'iter_misses_only_refused', 'iter_complete_when_gas_suffices',
+                           'reads_change_only_gas', 'view_set_always', 'accepted_set_is_read_back_always',
+                           'view_del_always', 'discarded_session_noop_always'],
         run=run_c09,
         replay=replay_olh('kv'),
         level='proof',
@@ -218,6 +223,7 @@ PROPS = {
             'IAVL root hash is a deterministic function of the sequence of Set/Remove/SaveVersion calls (validated each run by replaying the model write log into a fresh IAVL tree and comparing roots)',
             'values are never empty byte strings (the generator stores none; every caller in the repo treats len()==0 as absent)',
             'gas arithmetic is modelled over unbounded integers (Go int overflow of the per-block counter is out of scope)',
+            'metered states (every deliver / check state of the application) are covered by the `_always` / `get_exactly` theorems: a read either returns the view or ErrExceedGasLimit (exactly when the meter is used up and the key is not in the session), never another value; State.Delete outside of a session reports success also when the meter refused it (modelled as in the code: `view_del_always` names both cases); the property monitor runs on metered cases too and stops only at such a delete',
         ],
         model_limits='goleveldb durability is exercised (real close/reopen) but process-kill timing inside SaveVersion is IAVL/LevelDB territory and trusted',
     ),
@@ -336,7 +342,7 @@ PROPS = {
         assumptions=['the run of the EVM interpreter (go-ethereum v1.10.8, trusted) is a parameter of the model: gas left, refund counter, error flag, returned-code flag and the ordered balance-changing calls it made on the StateDB interface (SubBalance / AddBalance / Suicide) that survived its own reverts; in the correspondence these come from a reference run of the same interpreter on go-ethereum\'s own state (core/state over a memory db), not from the implementation',
                      'signature recovery (EIP-155), chain-id comparison, the envelope key\'s address, canonical spelling of payload and memo, JSON / RLP sizes and strconv.ParseUint of the memo are decoded facts of a transaction (Tx.sigOk, chainNil, chainOk, senderOk, signerKeyOk, payloadCanon, typeOk, memoCanon, size, memo); keccak is not modelled: the address of a created contract is an input',
                      'the theorems about an executed transaction are stated for an empty EVM object cache (an invariant of every history: step_keeps_cache_empty) and - for the exact sender / recipient / bystander equalities - accounts whose balance the contract code itself does not move; the value accounting (total\' = total - burnt, burnt = what the objects Finalise deletes still hold) assumes only the interpreter\'s own contract: the balance calls it makes on the state it is handed net to zero (an inner transfer credits what it debits, SELFDESTRUCT pays the beneficiary what Suicide then clears); burnt >= 0 (the total never grows) additionally assumes that the interpreter credits non-negative amounts and that the sender, an account without code, does not selfdestruct; burnt = 0 is proved for every run without a surviving Suicide call'],
-        model_limits='contract storage, code bytes and logs are not modelled (C16; in particular a creation whose runtime code is refused by the store - code equal to the deletion marker - fails in Finalise and is neither generated nor modelled); precompile recipients, contracts that CREATE and payloads that fail to unmarshal are neither generated nor modelled; branches of the model that the application cannot reach through ABCI in this tree because Validate runs first (TransitionDb nonce / EOA / funds / intrinsic-gas errors, ContractFeeHandling gas overflow, EVM.Call / create insufficient balance, address collision, a panicking SubBalance) are covered by the theorems but not by the correspondence; in the finite-block-gas family a transaction whose gas limit is within 3000 of what the block has left is not compared (the harness cannot observe the pool at the instant of buyGas) and a history ends before a transaction that could use up the block gas (that ends in logger.Fatal at EndBlock, C18)'),
+        model_limits='contract storage, code bytes and logs are not modelled (C16; in particular a creation whose runtime code is refused by the store - code equal to the deletion marker - fails in Finalise and is neither generated nor modelled); precompile recipients, contracts that CREATE and payloads that fail to unmarshal are neither generated nor modelled; branches of the model that the application cannot reach through ABCI in this tree because Validate runs first (TransitionDb nonce / EOA / funds / intrinsic-gas errors, ContractFeeHandling gas overflow, EVM.Call / create insufficient balance, address collision, a panicking SubBalance) are covered by the theorems but not by the correspondence; in the finite-block-gas family a transaction whose gas limit is within 3000 of what the block has left is not compared (the harness cannot observe the pool at the instant of buyGas) and a history ends before a transaction that could take the block gas meter over its limit while it runs: after that storage.State.Get falls through to the committed tree (reads of the rest of the block see last-commit values, e.g. the fee pool loses the fees of the block so far) - a storage-layer defect reported under C09, not yet repaired; transactions refused at the block gas pool (gas limit above what is left) are generated and compared, including the scripted case 4 (pool refusal of A, native SEND to A, OLVM transfer from / to A)'),
     'C04': dict(
         lean_modules=['OLP.Props.C04', 'OLP.Props.C04Facts'], namespaces=['OLP.Props.C04'],
         required_theorems=['validateBasic_iff', 'validateBasic_never_panics', 'signature_count_mismatch_rejected', 'substituted_signer_rejected',
